@@ -418,14 +418,70 @@ def cond_is_position_zero(c: CondV, truth: bool, A: Sym) -> Optional[bool]:
 # 3. order model
 # ---------------------------------------------------------------------------------
 
-def guard_means_strictly_ascending(guard: Optional[str], param: str) -> bool:
-    """`all(a < b for a, b in zip(P, P[1:]))`  (or the index form): every element smaller than its successor"""
+def _smaller_or_equal(test: ast.expr, cur: str, prev: str) -> bool:
+    """test says  cur <= prev  (in one of its spellings)"""
+    neg = False
+    while isinstance(test, ast.UnaryOp) and isinstance(test.op, ast.Not):
+        neg, test = not neg, test.operand
+    if not (isinstance(test, ast.Compare) and len(test.ops) == 1):
+        return False
+    l, r = core.src(test.left).replace(" ", ""), core.src(test.comparators[0]).replace(" ", "")
+    op = type(test.ops[0])
+    if neg:     # not (prev < cur)   /   not (cur > prev)
+        return (op is ast.Lt and (l, r) == (prev, cur)) or (op is ast.Gt and (l, r) == (cur, prev))
+    return (op is ast.LtE and (l, r) == (cur, prev)) or (op is ast.GtE and (l, r) == (prev, cur))
+
+
+def helper_means_strictly_ascending(fn: ast.FunctionDef) -> bool:
+    """a predicate helper that returns True only when every element of its (single) list argument is greater than the one
+    before it:   return all(a < b ...)   or the running-previous scan   prev = s; for x in P: if x <= prev: return False; prev = x; return True"""
+    if len(fn.args.args) != 1:
+        return False
+    P = fn.args.args[0].arg
+    body = [s_ for s_ in fn.body if not (isinstance(s_, ast.Expr) and isinstance(s_.value, ast.Constant))]
+    if len(body) == 1 and isinstance(body[0], ast.Return) and body[0].value is not None:
+        return guard_means_strictly_ascending(core.src(body[0].value), P)
+    if len(body) == 3 and isinstance(body[0], ast.Assign) and isinstance(body[1], ast.For) and isinstance(body[2], ast.Return) \
+            and isinstance(body[2].value, ast.Constant) and body[2].value.value is True and not body[1].orelse \
+            and len(body[0].targets) == 1 and isinstance(body[0].targets[0], ast.Name) and isinstance(body[1].target, ast.Name) \
+            and core.src(body[1].iter) == P and len(body[1].body) == 2:
+        prev, cur = body[0].targets[0].id, body[1].target.id
+        chk, upd = body[1].body
+        return (isinstance(chk, ast.If) and not chk.orelse and len(chk.body) == 1 and isinstance(chk.body[0], ast.Return)
+                and isinstance(chk.body[0].value, ast.Constant) and chk.body[0].value.value is False and _smaller_or_equal(chk.test, cur, prev)
+                and isinstance(upd, ast.Assign) and len(upd.targets) == 1 and core.src(upd.targets[0]) == prev and core.src(upd.value) == cur)
+    if len(body) == 2 and isinstance(body[0], ast.For) and isinstance(body[1], ast.Return) and isinstance(body[1].value, ast.Constant) \
+            and body[1].value.value is True and not body[0].orelse and len(body[0].body) == 1:
+        loop, chk = body[0], body[0].body[0]
+        if not (isinstance(chk, ast.If) and not chk.orelse and len(chk.body) == 1 and isinstance(chk.body[0], ast.Return)
+                and isinstance(chk.body[0].value, ast.Constant) and chk.body[0].value.value is False):
+            return False
+        it = core.src(loop.iter).replace(" ", "")
+        if isinstance(loop.target, ast.Tuple) and len(loop.target.elts) == 2 and it == f"zip({P},{P}[1:])":
+            a, b = (core.src(x) for x in loop.target.elts)
+            return _smaller_or_equal(chk.test, b, a)
+        if isinstance(loop.target, ast.Name):
+            i = loop.target.id
+            if it == f"range(len({P})-1)":
+                return _smaller_or_equal(chk.test, f"{P}[{i}+1]", f"{P}[{i}]")
+            if it == f"range(1,len({P}))":
+                return _smaller_or_equal(chk.test, f"{P}[{i}]", f"{P}[{i}-1]")
+    return False
+
+
+def guard_means_strictly_ascending(guard: Optional[str], param: str, resolve=None) -> bool:
+    """`all(a < b for a, b in zip(P, P[1:]))`  (or the index form): every element smaller than its successor; or a call
+    `helper(P)` of a module-level predicate that says the same (resolve: name -> FunctionDef or None)"""
     if guard is None:
         return False
     try:
         e = ast.parse(guard, mode="eval").body
     except SyntaxError:
         return False
+    if resolve is not None and isinstance(e, ast.Call) and isinstance(e.func, ast.Name) and e.func.id != "all" and len(e.args) == 1 \
+            and not e.keywords and core.src(e.args[0]) == param:
+        fn = resolve(e.func.id)
+        return fn is not None and helper_means_strictly_ascending(fn)
     if not (isinstance(e, ast.Call) and isinstance(e.func, ast.Name) and e.func.id == "all" and len(e.args) == 1
             and isinstance(e.args[0], (ast.GeneratorExp, ast.ListComp)) and len(e.args[0].generators) == 1 and not e.args[0].generators[0].ifs):
         return False
